@@ -38,6 +38,7 @@ impl Cfg {
             "self" => "self",
             "cycle3" => "cycle3",
             "mutual-deep" => "mutual-deep",
+            "static" => "static",
             _ => "none",
         };
         Cfg {
@@ -51,6 +52,8 @@ impl Cfg {
 }
 
 static COMPLETED: AtomicU64 = AtomicU64::new(0);
+/// number of event messages the reloader has handled, as published by the burst thread
+static HANDLED: AtomicU64 = AtomicU64::new(0);
 static IN_CALL: AtomicI64 = AtomicI64::new(0);
 static CALLER_TIDS: Mutex<Vec<i32>> = Mutex::new(Vec::new());
 static IN_CALL_TIDS: Mutex<Vec<i32>> = Mutex::new(Vec::new());
@@ -60,39 +63,60 @@ fn observer() {
     std::thread::spawn(|| {
         let mut frozen = 0;
         let mut last_completed = 0;
+        let mut handled_at_freeze = 0;
         let mut last_ticks: std::collections::HashMap<i32, u64> = Default::default();
         loop {
             std::thread::sleep(std::time::Duration::from_millis(200));
             let completed = COMPLETED.load(SeqCst);
             let in_call: Vec<i32> = IN_CALL_TIDS.lock().unwrap().clone();
             let reloaders = procfs::reloader_tasks();
-            let mut all_asleep = !in_call.is_empty();
+            let mut callers_asleep = !in_call.is_empty();
+            let mut reloaders_asleep = true;
             let mut detail = vec![];
-            for tid in in_call.iter().cloned().chain(reloaders.iter().map(|t| t.tid)) {
+            for (is_caller, tid) in in_call.iter().map(|t| (true, *t)).chain(reloaders.iter().map(|t| (false, t.tid))) {
                 match procfs::task(tid) {
                     Some(t) => {
                         let prev = last_ticks.insert(tid, t.ticks);
                         let idle = t.state == 'S' && prev == Some(t.ticks);
                         detail.push(format!("{}:{}:{}{}", t.comm, tid, t.state, if idle { "" } else { "*" }));
                         if !idle {
-                            all_asleep = false;
+                            if is_caller {
+                                callers_asleep = false;
+                            } else {
+                                reloaders_asleep = false;
+                            }
                         }
                     }
-                    None => all_asleep = false,
+                    None => {
+                        if is_caller {
+                            callers_asleep = false;
+                        }
+                    }
                 }
             }
-            if completed == last_completed && all_asleep {
+            let handled = HANDLED.load(SeqCst);
+            if completed == last_completed && callers_asleep {
+                if frozen == 0 {
+                    handled_at_freeze = handled;
+                }
                 frozen += 1;
             } else {
                 frozen = 0;
             }
             last_completed = completed;
-            if frozen >= 6 {
+            // (a) everybody sleeps: nobody can answer any more;
+            // (b) the callers sleep while the reloader keeps serving other
+            //     messages: it went round its loop many times without answering
+            let served_meanwhile = handled.saturating_sub(handled_at_freeze);
+            let stuck = frozen >= 6 && (reloaders_asleep || (frozen >= 15 && served_meanwhile >= 200));
+            if stuck {
                 println!(
-                    "VERDICT deadlock completed={} callers_inside_hot_reload={} reloader_threads={} states={:?}",
+                    "VERDICT deadlock completed={} callers_inside_hot_reload={} reloader_threads={} reloader_asleep={} events_served_while_callers_slept={} states={:?}",
                     completed,
                     in_call.len(),
                     reloaders.len(),
+                    reloaders_asleep,
+                    served_meanwhile,
                     detail
                 );
                 std::process::exit(3);
@@ -138,9 +162,19 @@ fn child(args: &Args, mut rep: Report, cfg: &Cfg) -> Report {
         }
         _ => {}
     }
-    let cache = AssetCache::with_source(mem.clone());
+    // "static": the documented combination enhance_hot_reloading() + hot_reload()
+    // (the latter has no effect any more, but it must return)
+    let owned;
+    let cache: &AssetCache<Mem> = if cfg.shape == "static" {
+        let leaked: &'static AssetCache<Mem> = Box::leak(Box::new(AssetCache::with_source(mem.clone())));
+        leaked.enhance_hot_reloading();
+        leaked
+    } else {
+        owned = AssetCache::with_source(mem.clone());
+        &owned
+    };
     let mut shape_keys = vec![];
-    if cfg.shape != "none" {
+    if cfg.shape != "none" && cfg.shape != "static" {
         for id in ["m.a", "m.b", "m.c", "m.d", "m.a", "m.b"] {
             if mem.get(id, "n0").is_some() {
                 let _ = cache.load::<Node<0>>(id);
@@ -162,7 +196,7 @@ fn child(args: &Args, mut rep: Report, cfg: &Cfg) -> Report {
     std::thread::scope(|s| {
         let mut callers = vec![];
         for i in 0..cfg.callers {
-            let (cache, mem, done, max_inside, rounds_overlapped, stale) = (&cache, &mem, &done, &max_inside, &rounds_overlapped, &stale);
+            let (cache, mem, done, max_inside, rounds_overlapped, stale) = (cache, &mem, &done, &max_inside, &rounds_overlapped, &stale);
             let h = handles[i];
             let shape = cfg.shape;
             callers.push(s.spawn(move || {
@@ -176,7 +210,7 @@ fn child(args: &Args, mut rep: Report, cfg: &Cfg) -> Report {
                     let content = leaf_content(i, g);
                     mem.write(&id, "a", content.as_bytes());
                     mem.notify_file(&id, "a");
-                    if shape != "none" && g % 3 == 0 {
+                    if shape != "none" && shape != "static" && g % 3 == 0 {
                         // touch the cyclic part of the graph too
                         mem.write("shared.s0", "a", format!("shared0-{i}-{g}").as_bytes());
                         mem.notify_file("shared.s0", "a");
@@ -212,7 +246,7 @@ fn child(args: &Args, mut rep: Report, cfg: &Cfg) -> Report {
             }));
         }
         for l in 0..cfg.loaders {
-            let (cache, done) = (&cache, &done);
+            let (cache, done) = (cache, &done);
             let mut r = base.sub(1000 + l as u64);
             s.spawn(move || {
                 let mut n = 0u64;
@@ -240,7 +274,7 @@ fn child(args: &Args, mut rep: Report, cfg: &Cfg) -> Report {
             });
         }
         if cfg.bursts {
-            let (mem, done) = (&mem, &done);
+            let (mem, done, cache) = (&mem, &done, cache);
             let mut r = base.sub(77);
             s.spawn(move || {
                 while !done.load(SeqCst) {
@@ -253,6 +287,7 @@ fn child(args: &Args, mut rep: Report, cfg: &Cfg) -> Report {
                         })
                         .collect();
                     mem.notify_batch(burst);
+                    HANDLED.store(cache.verif_events_handled().unwrap_or(0) as u64, SeqCst);
                     for _ in 0..50 {
                         std::thread::yield_now();
                     }
@@ -314,6 +349,8 @@ pub fn configs(args: &Args) -> Vec<Cfg> {
             v.push(Cfg { callers, loaders, bursts: loaders > 0, calls: ((n(4000, 60000) as f64 * args.scale) as usize) / callers.max(1) + 20, shape: "none" });
         }
     }
+    v.push(Cfg { callers: 1, loaders: 0, bursts: false, calls: (n(300, 3000) as f64 * args.scale) as usize + 10, shape: "static" });
+    v.push(Cfg { callers: 4, loaders: 2, bursts: true, calls: (n(300, 3000) as f64 * args.scale) as usize + 10, shape: "static" });
     for shape in ["mutual", "self", "cycle3", "mutual-deep"] {
         v.push(Cfg { callers: 2, loaders: 1, bursts: false, calls: (n(600, 6000) as f64 * args.scale) as usize + 10, shape });
         if t {
@@ -365,7 +402,7 @@ pub fn run(args: &Args) -> Report {
     rep.count("multi_caller_configurations_with_overlap", overlapped_cfgs);
     rep.count("multi_caller_configurations", multi_caller_cfgs);
     rep.floor("hot_reload_calls_completed", rep.get("hot_reload_calls_completed"), 300);
-    rep.floor_set("shapes", if args.nshards > 1 { 1 } else { 5 });
+    rep.floor_set("shapes", if args.nshards > 1 { 1 } else { 6 });
     // >= 2 callers observed inside hot_reload simultaneously in (almost) every multi-caller configuration
     rep.floor("multi_caller_configurations_with_overlap", overlapped_cfgs * 10, multi_caller_cfgs * 7);
     rep
